@@ -22,6 +22,7 @@ EXPLANATION = (
     "The Boolean meaning of returned keys for arbitrary call sequences is not decided."
     " Added after seed round 6: G5's scenario table is evaluated on concrete children (11, 12), component in {None, TRUE, old, new}, max_arity in {0, 2, 5}; the replacement node must cover exactly the old children plus the component."
     " Added after seed round 7: G8 add_atom shares atoms by identifier for both values of keep_all and never folds the neutral weight to a constant."
+    " Added after seed round 8: G9 paths of _add_compound for a modifiable node neither consult the sharing index nor return an indexed key."
 )
 TECHNIQUE = "static analysis: path-wise decision-table extraction, return-of-procedure rule over the class hierarchy"
 LEVEL_TEXT = EXPLANATION
